@@ -34,8 +34,9 @@ type PipeCase struct {
 	Delays   []int      `json:"delays"`   // per fake step: 0 none, 1 yield, 2 sleep 20us, 3 sleep 300us (used when Gated is false)
 	Gated    bool       `json:"gated"`
 	Procs    int        `json:"procs"`
-	SlowFin  []bool     `json:"slowfin"`          // target k sleeps after its channel closed
-	Breaks   []int      `json:"breaks,omitempty"` // feature indexes at which a new table starts: ProcessFeatures is called once per table with the same targets, like main.go does
+	SlowFin  []bool     `json:"slowfin"`            // target k sleeps after its channel closed
+	SlowFeat int        `json:"slowfeat,omitempty"` // 1-based index of a polygon feature whose snapping takes 30 ms (a straggler); 0: none
+	Breaks   []int      `json:"breaks,omitempty"`   // feature indexes at which a new table starts: ProcessFeatures is called once per table with the same targets, like main.go does
 }
 
 // ---------------------------------------------------------------------------------------------------------------
@@ -111,6 +112,7 @@ type received struct {
 	geom geom.Geometry
 	tmID int
 	isTM bool
+	f    processing.Feature // the delivered object itself: read again when the channel closes (a real target keeps features until it writes a page)
 }
 
 type fakeTarget struct {
@@ -121,6 +123,7 @@ type fakeTarget struct {
 	got     []received
 	done    int32
 	slowFin bool
+	changed string // set when a retained feature reads differently at the end than on receipt
 	table   string // written by the caller after ProcessFeatures returned, like main.go does with target.Table
 }
 
@@ -133,7 +136,7 @@ func (t *fakeTarget) WriteFeatures(ch <-chan processing.Feature) {
 			break
 		}
 		_ = t.table
-		r := received{cols: f.Columns(), geom: f.Geometry()}
+		r := received{cols: f.Columns(), geom: f.Geometry(), f: f}
 		if tm, ok := f.(processing.FeatureForTileMatrix); ok {
 			r.tmID, r.isTM = tm.TileMatrixID(), true
 		}
@@ -144,6 +147,22 @@ func (t *fakeTarget) WriteFeatures(ch <-chan processing.Feature) {
 	if t.slowFin {
 		time.Sleep(3 * time.Millisecond)
 	}
+	// read every retained feature again: what was delivered must not have changed since
+	t.mu.Lock()
+	for i, r := range t.got {
+		if r.f == nil {
+			continue
+		}
+		again := received{cols: r.f.Columns(), geom: r.f.Geometry()}
+		if tm, ok := r.f.(processing.FeatureForTileMatrix); ok {
+			again.tmID, again.isTM = tm.TileMatrixID(), true
+		}
+		if !reflect.DeepEqual(again.cols, r.cols) || !reflect.DeepEqual(again.geom, r.geom) || again.tmID != r.tmID {
+			t.changed = fmt.Sprintf("delivery %d changed after it was delivered: was (%v, %v, tile matrix %d), is now (%v, %v, tile matrix %d)", i, r.cols, r.geom, r.tmID, again.cols, again.geom, again.tmID)
+		}
+		t.got[i].f = nil
+	}
+	t.mu.Unlock()
 	_ = t.table
 	atomic.AddInt32(&t.done, 1)
 }
@@ -256,6 +275,9 @@ func buildRun(c PipeCase) *pipeRun {
 func (r *pipeRun) snapFunc(p geom.Polygon, ids []int) map[int][]geom.Polygon {
 	r.snapGate.wait()
 	feat, part := int(p[0][0][0]), int(p[0][0][1])
+	if r.c.SlowFeat > 0 && feat == r.c.SlowFeat-1 {
+		time.Sleep(30 * time.Millisecond)
+	}
 	out := map[int][]geom.Polygon{}
 	fs := r.c.Feats[feat]
 	for _, id := range ids {
@@ -323,6 +345,14 @@ func sameReceived(a, b received) string {
 // prefixCheck: what the targets have so far must be a prefix of the model.
 func (r *pipeRun) prefixCheck(final bool) string {
 	for k, ft := range r.targets {
+		if final {
+			ft.mu.Lock()
+			ch := ft.changed
+			ft.mu.Unlock()
+			if ch != "" {
+				return fmt.Sprintf("target %d: %s", ft.id, ch)
+			}
+		}
 		got := ft.snapshot()
 		want := r.expected[k]
 		if len(got) > len(want) {
